@@ -1,5 +1,6 @@
 import Smpl.Model.AkaiTool
 import Smpl.Model.RolandTool
+import Smpl.Model.CddaTool
 import Smpl.Model.Container
 import Smpl.Model.Cdda
 import Smpl.Drv.Util
@@ -38,7 +39,7 @@ def imgOfByteArray (b : ByteArray) : Smpl.Roland.Img :=
 inductive Opened where
   | image (view : List Nat)            -- a sampler image (after unwrapping)
   | rawImage (b : ByteArray)           -- the same, not wrapped in any container: kept as a byte array
-  | cdda
+  | cdda (cue : Smpl.Cue.CueFile) (bin : Option (List Nat))    -- all-audio cue sheet and its bin file (none: cannot be opened)
   | unreadable (msg : String)
 
 /-- `determine_image_type(path)`: ASCII text that parses as a cue sheet is followed (data track: the
@@ -49,7 +50,13 @@ def openImage (file : String) : IO Opened := do
     match Smpl.Cue.parse (textLines data) with
     | .ok cue =>
       match Smpl.Cdda.detect cue with
-      | .cdda => pure .cdda
+      | .cdda =>
+        let dir := (System.FilePath.mk file).parent.getD (System.FilePath.mk ".")
+        let bin := dir / String.ofList cue.binName
+        if ← bin.pathExists then
+          let bdata := (← IO.FS.readBinFile bin).toList.map (·.toNat)
+          pure (.cdda cue (some bdata))
+        else pure (.cdda cue none)
       | .dataTrack =>
         let dir := (System.FilePath.mk file).parent.getD (System.FilePath.mk ".")
         let bin := dir / String.ofList cue.binName
@@ -104,7 +111,17 @@ def akaiOp (programOk : List Nat → Bool) (toks : List String) : IO String := d
             return (" || ".intercalate (ex :: lss))
       | none => pure ()
       match opened with
-      | .cdda => pure "cdda"
+      | .cdda _ none => pure ("err Other:FileNotFoundError" ++ String.join (paths.map fun _ => " || err Other:FileNotFoundError"))
+      | .cdda cue (some bin) =>
+        let ws := Smpl.Cdda.windows cue bin.length
+        let ex := match Smpl.CddaTool.exportOf bin ws with
+          | .error e => "err " ++ toString e
+          | .ok files => "ok " ++ " ; ".intercalate (files.map showExported)
+        let lss := paths.map fun p =>
+          match Smpl.CddaTool.lsOf ws p with
+          | .error e => "err " ++ toString e
+          | .ok lines => "ok " ++ " ".intercalate (lines.map charsToHex)
+        pure (" || ".intercalate (ex :: lss))
       | .unreadable m => pure ("unreadable " ++ m)
       | .rawImage b =>
         match tree (b.toList.map (·.toNat)) programOk with
